@@ -107,3 +107,15 @@ func VerifDecodeAssignment(b []byte) (*ConsumerGroupMemberAssignment, error) {
 	err := decode(b, m)
 	return m, err
 }
+
+// VerifReassignBlocks lists the (topic, partition, replicas) entries of an AlterPartitionReassignments request.
+func VerifReassignBlocks(r *AlterPartitionReassignmentsRequest) map[string]map[int32][]int32 {
+	out := map[string]map[int32][]int32{}
+	for t, ps := range r.blocks {
+		out[t] = map[int32][]int32{}
+		for p, b := range ps {
+			out[t][p] = b.replicas
+		}
+	}
+	return out
+}
